@@ -2,11 +2,14 @@
    (1) every solution of a system whose rows are convex combinations (plus sink) stays within the data;
    (2) sign structure of the diffusion and upwind stencils of the model (tied to every builder by the operator suites);
    (3) per axis, -diffusionTerm(D) + convectionUpwindTerm(u) has exactly that row shape, with diagonal excess = div(u).
-   PARTIAL: the elimination of ghost cells through the boundary rows (Dirichlet x_g = 2c - x_i, no-flux x_g = x_i, periodic) and
-   the summation over axes that turn (2)-(3) into an instance of (1) are carried out numerically by the check on the
-   matrices the implementation assembles (off-diagonals <= 0, row sums), not as a Coq theorem. *)
+   (4) on the MODEL ITSELF (all classes, all dimensions): every solution of the system assembled from transient, -diffusion,
+   upwind (divergence-free u) and sink stays between min(previous values, 0 / boundary data) and max(...), given that ghost values
+   do not exceed an inner cell that is above the bound -- which Dirichlet rows (x_g = 2c - x_i, c within the bound) and no-flux
+   rows (x_g = x_i) imply (C07_dirichlet_ghost, C07_noflux_ghost).  Remaining gap (PARTIAL): periodic axes are not covered by (4),
+   and the ghost hypothesis is discharged per boundary kind by the two lemmas rather than derived once for arbitrary BC objects. *)
 From Coq Require Import Reals Arith List Lra Lia.
-From PFV Require Import OField KOps Grid Ops StencilThy MaxPrincipleThy.
+From PFV Require Import OField KOps Grid Ops Boundary Solver StencilThy ConservThy MaxPrincipleThy MaxPrincipleModel.
+Import ListNotations.
 Local Open Scope R_scope.
 
 Theorem C07_upper : forall n x g w s beta (M : R),
@@ -53,3 +56,43 @@ Proof.
   - intros; lra.
   - intros; lra.
 Qed.
+
+(* ---- on the model: upper and lower bound for every solution, every grid class and dimension ---- *)
+Theorem C07_model_upper : forall (m : Mesh ROps) (D u : fvar ROps) (x alpha beta old : cvar ROps) (dt M : R) (cells : list cell),
+  cells <> [] ->
+  (forall c a, In c cells -> In a (active_axes ROps m) -> (1 <= cidx a c <= mN ROps m a)%nat /\ signs_ok m D c a) ->
+  (forall c, In c cells -> alpha c / dt * (x c - old c) + rsuml (fun a => axis_term m D u x a c) (active_axes ROps m) + beta c * x c = 0) ->
+  (forall c, In c cells -> rsuml (fun a => divrow ROps m u a c) (active_axes ROps m) = 0) ->
+  (forall c, In c cells -> 0 < alpha c /\ 0 <= beta c) -> 0 < dt ->
+  (forall c, In c cells -> old c <= M) -> 0 <= M ->
+  (forall c a, In c cells -> In a (active_axes ROps m) ->
+     (In (cdn a c) cells \/ (M < x c -> x (cdn a c) <= x c)) /\ (In (cup a c) cells \/ (M < x c -> x (cup a c) <= x c))) ->
+  forall c, In c cells -> x c <= M.
+Proof. exact max_principle_upper. Qed.
+Print Assumptions C07_model_upper.
+Theorem C07_model_lower : forall (m : Mesh ROps) (D u : fvar ROps) (x alpha beta old : cvar ROps) (dt lo : R) (cells : list cell),
+  cells <> [] ->
+  (forall c a, In c cells -> In a (active_axes ROps m) -> (1 <= cidx a c <= mN ROps m a)%nat /\ signs_ok m D c a) ->
+  (forall c, In c cells -> alpha c / dt * (x c - old c) + rsuml (fun a => axis_term m D u x a c) (active_axes ROps m) + beta c * x c = 0) ->
+  (forall c, In c cells -> rsuml (fun a => divrow ROps m u a c) (active_axes ROps m) = 0) ->
+  (forall c, In c cells -> 0 < alpha c /\ 0 <= beta c) -> 0 < dt ->
+  (forall c, In c cells -> lo <= old c) -> lo <= 0 ->
+  (forall c a, In c cells -> In a (active_axes ROps m) ->
+     (In (cdn a c) cells \/ (x c < lo -> x c <= x (cdn a c))) /\ (In (cup a c) cells \/ (x c < lo -> x c <= x (cup a c)))) ->
+  forall c, In c cells -> lo <= x c.
+Proof. exact max_principle_lower. Qed.
+Print Assumptions C07_model_lower.
+(* the row hypothesis is the interior equation of is_solution for the term list of the property *)
+Theorem C07_rows_from_is_solution : forall (m : Mesh ROps) (bc : BCs ROps) (D u : fvar ROps) (x alpha beta old : cvar ROps) (dt : R) c,
+  dt <> 0 ->
+  is_solution ROps m bc [TTrans ROps alpha dt old; TDiff ROps (-1) D; TUpw ROps 1 u u; TLin ROps 1 beta] x ->
+  interior ROps m c = true ->
+  alpha c / dt * (x c - old c) + rsuml (fun a => axis_term m D u x a c) (active_axes ROps m) + beta c * x c = 0.
+Proof. exact is_solution_row. Qed.
+Print Assumptions C07_rows_from_is_solution.
+(* the ghost hypothesis from the boundary rows *)
+Theorem C07_dirichlet_ghost : forall xg xi cD M : R, 1 / 2 * xg + 1 / 2 * xi = cD -> cD <= M -> M < xi -> xg <= xi.
+Proof. exact dirichlet_ghost. Qed.
+Theorem C07_noflux_ghost : forall xg xi aoh : R, aoh <> 0 -> (0 / 2 + aoh) * xg + (0 / 2 - aoh) * xi = 0 -> xg <= xi.
+Proof. exact noflux_ghost. Qed.
+Print Assumptions C07_noflux_ghost.
